@@ -462,7 +462,7 @@ This form is not subject to ambiguity when the orbit is circular and/or
 equatorial like the keplerian form is (on ω and Ω, respectively)
 """
 
-CYL = Form("cylindrical", ["r", "theta", "z", "r_dot", "theta_dot", "vz"])
+CYL = Form("cylindrical", ["r", "θ", "z", "r_dot", "θ_dot", "vz"])
 """Cylindrical form
 
     * r : radial distance
